@@ -57,6 +57,10 @@ def run(tier):
         for proto, n, t in (("frost-keygen", 3, 1), ("taproot-keygen", 3, 1), ("xor", 3, 0), ("toy:b,bm,b", 3, 1), ("frost-sign", 3, 2)):
             for diff in ("sid", "proto", "parties", "threshold"):
                 add(kind="foreign", proto=proto, n=n, t=t, diff=diff, sched=sd * 97 + k * 13 + len(scen))
+    # the two-party handler (Doerner) has its own header filter
+    for k in range(4 if quick else 16):
+        for proto in ("doerner-keygen", "doerner-sign", "doerner-refresh"):
+            add(kind="foreign", proto=proto, n=2, t=1, diff="sid", sched=sd * 97 + k * 13 + len(scen))
     for k in range(1 if quick else 6):
         for proto in ("cmp-sign",) if quick else ("cmp-sign", "cmp-presign", "cmp-refresh"):
             for diff in ("sid", "material", "message"):
